@@ -17,10 +17,10 @@ open(f,'w').write(s)
 PY
 rc=$?
 if [ $rc -eq 0 ]; then
-  if go build ./... 2>/tmp/mut.build.$$ >/dev/null || ! grep -v 'analysis/sql/test' /tmp/mut.build.$$ | grep -q .; then
+  if go build ./analysis ./analysis/sql ./analysis/httpapi ./generator ./generator/dart ./generator/sql ./generator/typescript ./generator/go/gounions ./generator/go/randdata ./generator/go/sqlcrud ./cmd 2>/tmp/mut.build.$$ >/dev/null; then
     /verif/run.sh "$PROP" quick | grep -E 'VIOLATION|UNDECIDED|^  (rule|why|construct)|^property=' | head -${MUT_LINES:-12}
   else
-    echo "MUT: does not build"; grep -v 'analysis/sql/test' /tmp/mut.build.$$ | head -5
+    echo "MUT: does not build"; head -5 /tmp/mut.build.$$
   fi
 fi
 cp /tmp/mut.bak.$$ "$FILE"; rm -f /tmp/mut.bak.$$ /tmp/mut.build.$$
